@@ -592,6 +592,9 @@ def file_reads_shadowed(ctx, p):
         if not sites:
             continue
         uk = [k for k in UNSHADOWED_OK if lib.site_in(F, k, b.path)]      # the reviewed function, or a helper/closure reachable only through it
+        if not uk and lib.confined_through(F, b.path, set(UNSHADOWED_OK)):
+            # a helper shared by several of the reviewed functions and reachable through nothing else
+            uk = sorted(k for k in UNSHADOWED_OK if b.path in set(x.path for x in lib.family(F, k)))[:1] or sorted(UNSHADOWED_OK)[:1]
         if uk:
             ctx.ob(p + 'a unshadowed-read-reviewed %s' % b.path, 'K4-confinement', b.path, 'reads file bytes without the overlay by design: ' + UNSHADOWED_OK[uk[0]], True, '')
             continue
@@ -2079,13 +2082,31 @@ def walk_frees_children_of_the_root_found(ctx, p):
         t = fb.term(s)
         cands = [a for a in t['a'] if op_place(a) is not None and re.search(r'Vec<u64>|\[u64\]|Children', str(fb.locals[op_place(a)[0]]))]
         ok, det = False, 'no child-list argument found'
-        if cands:
-            sl = backward_slice(fb, [op_place(cands[0])])
+
+        def prov(b, place, depth=3):
+            sl = backward_slice(b, [place])
             from_root = any(re.search(r'unpack_node_data$', c) for c in sl.calls) and any(re.search(r'HashColumn::get$', c) for c in sl.calls)
             stored = [f for f in sl.fields if re.search(r'DereferenceChildren\.NodeChange\.2$|NodeChange\.2$', f)]
             # the payload of the change may be looked at for the key / hash (fields 0, 1), not for the children
-            ok = from_root and not stored
-            det = '' if ok else ('the walk is handed the child list stored in the change set (%s)' % stored[0] if stored else 'the child list does not come from unpacking the root value returned by HashColumn::get')
+            if stored:
+                return False, 'the walk is handed the child list stored in the change set (%s)' % stored[0]
+            if from_root:
+                return True, ''
+            # the list is a parameter of a helper that the planning step calls: look at what every caller hands over
+            ps = sorted(x for x in sl.params if 1 <= x <= b.argc)
+            callers = [(cb, cs) for cb, cs in lib.fam_sites(F, wpl.path, [b.path]) if cb.path != b.path]
+            if depth > 0 and len(ps) == 1 and callers and '{closure' not in b.path:
+                for cb, cs in callers:
+                    a = cb.term(cs)['a']
+                    if len(a) < ps[0] or op_place(a[ps[0] - 1]) is None:
+                        return False, 'the child list handed over by %s is not a place' % cb.path
+                    r = prov(cb, op_place(a[ps[0] - 1]), depth - 1)
+                    if not r[0]:
+                        return r
+                return True, ''
+            return False, 'the child list does not come from unpacking the root value returned by HashColumn::get'
+        if cands:
+            ok, det = prov(fb, op_place(cands[0]))
         ctx.ob(p + ' walk-starts-from-the-root-found %s' % fb.path, 'K4-provenance', fb.path,
                'the children handed to the removal walk are unpacked from the root value that this planning step read (and removes)', ok, det, fb.loc(s))
 
@@ -2287,6 +2308,29 @@ def workers_own_tree_lock_is_not_a_reader(ctx, p):
                     if t['vals'] == [1]:
                         out.add((bi, t['ts'][-1]))
         return frozenset(out)
+    # an announcement / a retraction made through a helper (`db.set_tree_removing(col, hash, true)`): the call is a site of that
+    # kind when, with the constant flags it passes, every path through the helper makes the effect (a column without a registry
+    # entry aside)
+    def lift(kind):
+        for f, sites in list(kind.items()):
+            for hb in set(bb for bb, _ in sites):
+                if '{closure' in hb.path:
+                    continue
+                inner = [x for bb, x in sites if bb is hb]
+                for b in fam:
+                    if b is hb:
+                        continue
+                    for bi, t in b.calls():
+                        if bi not in b.normal_blocks() or hb.path not in call_names(t):
+                            continue
+                        cut = set(no_registry_entry_edges(hb))
+                        for ai, a in enumerate(t['a']):
+                            v = lib.const_of(b, a)
+                            if v is not None and str(hb.locals[ai + 1]) == 'bool':
+                                cut |= lib.prune_bool_param(hb, ai + 1, bool(v))
+                        if lib.ok_return_unreachable_avoiding(hb, inner, removed_edges=frozenset(cut), cut_errors=False) is None and (b, bi) not in kind[f]:
+                            kind[f].append((b, bi))
+    lift(announce); lift(clears)
     for (b, lk) in locks:
         cut = no_registry_entry_edges(b)
         for f, sites in announce.items():
